@@ -36,7 +36,7 @@ static inline int bytering_empty(struct bytering_head *r)
 
 static inline int bytering_full(struct bytering_head *r)
 {
-    return r->head == (r->tail == r->start ? r->end : r->tail) - 1;
+    return r->tail == (r->head == r->start ? r->end : r->head) - 1;
 }
 
 static inline int bytering_pop_nocheck(struct bytering_head *r)
